@@ -47,9 +47,11 @@ def is_acyclic(n, cons):
     return seen == n
 
 
-def run_solver(des, wt, sc, cons):
-    """des/wt/sc are what the CODE sees (floats/ints); cons = [(l, r, gap)]."""
-    vs = [vpsc.Variable(d, w, s) for d, w, s in zip(des, wt, sc)]
+def run_solver(des, wt, sc, cons, first=None):
+    """des/wt/sc are what the CODE sees (floats/ints); cons = [(l, r, gap)].
+    first: desired positions of an EARLIER solve() on the same Solver; des is then installed with setDesiredPositions()
+    and the observed run is the re-solve."""
+    vs = [vpsc.Variable(d, w, s) for d, w, s in zip(des if first is None else first, wt, sc)]
     cs = [vpsc.Constraint(vs[a], vs[b], g) for a, b, g in cons]
     solver = vpsc.Solver(vs, cs)
     budget = 10 * (len(vs) + len(cs)) + 100
@@ -67,6 +69,10 @@ def run_solver(des, wt, sc, cons):
     err = None
     ret = None
     try:
+        if first is not None:
+            solver.solve()
+            calls[0] = 0
+            solver.setDesiredPositions(list(des))
         ret = solver.solve()
     except Budget:
         terminated = False
@@ -79,14 +85,14 @@ def run_solver(des, wt, sc, cons):
     return pos, uns, act, ret, terminated, calls[0], err
 
 
-def traced_solve(des, wt, sc, cons):
-    """Micro-step log of one solve(): the solver's internal calls are wrapped at run time in THIS process only (no source hook).
+def traced_solve(des, wt, sc, cons, first=None):
+    """Micro-step log of one solve() (or, with first, of solve(); setDesiredPositions(des); solve()): the solver's internal calls are wrapped at run time in THIS process only (no source hook).
     Returns None when an attribute to wrap does not exist any more (refactoring): the layer is then skipped."""
     needed = [(vpsc.Block, "split"), (vpsc.Block, "splitBetween"), (vpsc.Blocks, "merge"), (vpsc.Blocks, "split"),
               (vpsc.Solver, "mostViolated"), (vpsc.Solver, "satisfy")]
     if not all(hasattr(o, a) for o, a in needed):
         return None
-    vs = [vpsc.Variable(d, w, s) for d, w, s in zip(des, wt, sc)]
+    vs = [vpsc.Variable(d, w, s) for d, w, s in zip(des if first is None else first, wt, sc)]
     cs = [vpsc.Constraint(vs[a], vs[b], g) for a, b, g in cons]
     solver = vpsc.Solver(vs, cs)
     idx = {id(c): i + 1 for i, c in enumerate(cs)}
@@ -144,6 +150,10 @@ def traced_solve(des, wt, sc, cons):
     vpsc.Solver.satisfy = w_sat
     try:
         solver.solve()
+        if first is not None:
+            solver.setDesiredPositions(list(des))
+            raw.append(("retarget", 0) + flags())
+            solver.solve()
     except Budget:
         return None
     finally:
@@ -185,6 +195,8 @@ def traced_solve(des, wt, sc, cons):
                 ev.append({"a": "U", "c": c, "act": act, "uns": [u or (1 if k + 1 == c else 0) for k, u in enumerate(uns)]})
         elif kind == "endsat":
             ev.append({"a": "X", "c": 0, "act": act, "uns": uns})
+        elif kind == "retarget":
+            ev.append({"a": "R", "c": 0, "act": act, "uns": uns, "des": list(des)})
         i += 1
     return ev
 
@@ -230,9 +242,9 @@ def gen_small(rng, mode):
     return des, wts, scs, cons
 
 
-def rec_small(des, wt, sc, cons):
+def rec_small(des, wt, sc, cons, first=None):
     n = len(des)
-    pos, uns, act, ret, term, calls, err = run_solver(des, wt, sc, cons)
+    pos, uns, act, ret, term, calls, err = run_solver(des, wt, sc, cons, first)
     rec = {
         "n": n, "des": des, "wt": wt, "sc": sc,
         "cl": [a + 1 for a, _, _ in cons], "cr": [b + 1 for _, b, _ in cons], "cg": [g for _, _, g in cons],
@@ -243,6 +255,7 @@ def rec_small(des, wt, sc, cons):
         "terminated": 1 if term else 0,
         "acyclic": 1 if is_acyclic(n, cons) else 0,
         "rounds": calls,
+        "first": list(first) if first is not None else [],
     }
     return rec
 
@@ -361,11 +374,11 @@ def better_feasible_point(des, wt, sc, cons, pos, act):
     return None
 
 
-def rec_large(des, wt, sc, cons):
+def rec_large(des, wt, sc, cons, first=None):
     n = len(des)
     pos, uns, act, ret, term, calls, err = run_solver(
         [float(d) for d in des], [float(w) for w in wt], [float(s) for s in sc],
-        [(a, b, float(g)) for a, b, g in cons])
+        [(a, b, float(g)) for a, b, g in cons], None if first is None else [float(d) for d in first])
     # integer scales: multiply scales and gaps by 2; weights by 100
     sc2 = [int(s * 2) for s in sc]
     rec = {
@@ -384,6 +397,7 @@ def rec_large(des, wt, sc, cons):
         "rounds": calls,
         "err": err or "",
         "haswit": 0, "wit6": [],
+        "first": [str(d) for d in first] if first is not None else [],
     }
     if term and rec["acyclic"] and not any(uns):
         w = better_feasible_point(des, wt, sc, cons, pos, act)
@@ -401,33 +415,44 @@ def main():
     discarded = 0
     for inst in job.get("large_instances", []):
         recs.append(rec_large([Fraction(x) for x in inst["des"]], [Fraction(x) for x in inst["wt"]], [Fraction(x) for x in inst["sc"]],
-                              [(a, b, Fraction(g)) for a, b, g in inst["cons"]]))
+                              [(a, b, Fraction(g)) for a, b, g in inst["cons"]],
+                              [Fraction(x) for x in inst["first"]] if inst.get("first") else None))
     if job.get("instances"):
         for inst in job["instances"]:
             cons = [tuple(c) for c in inst["cons"]]
-            recs.append(rec_small(inst["des"], inst["wt"], inst["sc"], cons))
+            recs.append(rec_small(inst["des"], inst["wt"], inst["sc"], cons, inst.get("first") or None))
     while len(recs) < job["count"]:
-        if mode in ("large", "heavy"):
-            des, wt, sc, cons = gen_large(rng) if mode == "large" else gen_heavy(rng)
-            rec = rec_large(des, wt, sc, cons)
+        if mode in ("large", "heavy", "reslarge"):
+            des, wt, sc, cons = gen_heavy(rng) if mode == "heavy" else gen_large(rng)
+            first = None
+            if mode == "reslarge":
+                first = [rng.choice([d, d + Fraction(rng.randint(-60, 60), 2), Fraction(rng.randint(-100, 100), 2)]) for d in des]
+            rec = rec_large(des, wt, sc, cons, first)
             if any(p is None for p in rec["pos5"]):
                 discarded += 1
                 continue
             recs.append(rec)
         else:
-            des, wt, sc, cons = gen_small(rng, rng.choice(["small", "small", "scaled", "cyclic"]) if mode == "steps" else mode)
-            if not cons or not envelope_ok(des, wt, sc, cons):
+            resolve = mode == "resolve" or (mode == "steps" and rng.random() < 0.4)
+            des, wt, sc, cons = gen_small(rng, rng.choice(["small", "small", "scaled", "cyclic"]) if mode == "steps" else
+                                          (rng.choice(["small", "small", "scaled", "cyclic"]) if mode == "resolve" else mode))
+            first = None
+            if resolve:
+                # an earlier solve() on the same Solver with other desired positions (same lattice, so the same envelope)
+                hi = max(des + [2])
+                first = [rng.choice([d, rng.randint(0, hi), rng.randint(0, hi)]) for d in des]
+            if not cons or not envelope_ok(des, wt, sc, cons) or (first is not None and not envelope_ok(first, wt, sc, cons)):
                 discarded += 1
                 continue
             if mode == "steps":
-                ev = traced_solve(des, wt, sc, cons)
+                ev = traced_solve(des, wt, sc, cons, first)
                 if ev is None:
                     json.dump({"records": [], "discarded": 0, "skipped": "solver internals not wrappable"}, sys.stdout)
                     return
-                recs.append({"n": len(des), "des": des, "wt": wt, "sc": sc, "cl": [a + 1 for a, _, _ in cons],
+                recs.append({"n": len(des), "des": des if first is None else first, "wt": wt, "sc": sc, "cl": [a + 1 for a, _, _ in cons],
                              "cr": [b + 1 for _, b, _ in cons], "cg": [g for _, _, g in cons], "ev": ev})
             else:
-                recs.append(rec_small(des, wt, sc, cons))
+                recs.append(rec_small(des, wt, sc, cons, first))
     json.dump({"records": recs, "discarded": discarded}, sys.stdout)
 
 
